@@ -107,9 +107,9 @@ func (g *Gateway) subscriptionHandler(w http.ResponseWriter, r *http.Request) {
 			_, werr = conn.Conn.Write(body)
 		}
 		conn.mu.Unlock()
-		if werr != nil {
-			return
-		}
+		// the peer may be gone already (abrupt disconnect): the close frame is best
+		// effort, the subscriptions of the connection are released in any case
+		_ = werr
 
 		// close conn
 		conn.Close()
